@@ -1,5 +1,5 @@
 (* C10  Body transfer encoding is lossless and obeys the declared encoding's rules.  Statements only. *)
-From LV Require Import Base.Bytes Base.Res Base.Base64 Model.Body Spec.Cte Proofs.BodyProofs Proofs.QpProofs.
+From LV Require Import Base.Bytes Base.Res Base.Base64 Model.Body Spec.Cte Proofs.BodyProofs Proofs.QpProofs Proofs.CteShapeProofs.
 
 (* Lossless, automatic choice: for EVERY byte string given as binary or as text, decoding the
    emitted octets according to the emitted Content-Transfer-Encoding (RFC 2045 decoders written
@@ -38,6 +38,34 @@ Proof. exact qp_roundtrip. Qed.
 Theorem C10_b64_roundtrip : forall l : bytes, bytes_ok l = true -> b64_body_decode (b64_wrap l) = Some l.
 Proof. exact b64_body_roundtrip. Qed.
 
+(* The emitted octets obey the declared encoding, for EVERY content and both input types, whether the
+   encoding was chosen automatically or asked for:
+     base64           - ASCII, no bare CR or LF, lines of at most 76 characters;
+     quoted-printable - the same, and no line ends in SP or TAB;
+     7bit             - ASCII; and when the content has no NUL and no bare CR or LF (the class of the
+                        known finding F16, which the library emits raw), also lines within 998 octets,
+                        i.e. all of RFC 2045 2.7.
+   (`obeys` is defined in Proofs/CteShapeProofs.v from the RFC 2045 predicates of Spec/Cte.v.) *)
+Theorem C10_obeys_declared : forall (is_string : bool) (l out : bytes) (e : cte), bytes_ok l = true ->
+  body_new is_string l = (out, e) \/ (exists e0, body_new_with_encoding is_string l e0 = Ok (out, e)) ->
+  match e with
+  | Base64 => b64_lines_ok out = true
+  | QuotedPrintable => qp_lines_ok out = true
+  | SevenBit => is_ascii out = true /\ (mem 0 out = false -> no_bare out = true -> sevenbit_ok out = true)
+  | EightBit | Binary => True
+  end.
+Proof. exact body_obeys. Qed.
+Theorem C10_base64_lines : forall l : bytes, b64_lines_ok (b64_wrap l) = true.
+Proof. exact b64_wrap_obeys. Qed.
+Theorem C10_qp_lines : forall l : bytes, bytes_ok l = true -> qp_lines_ok (qp_encode l) = true.
+Proof. exact qp_encode_obeys. Qed.
+(* the premises of the 7bit case are met by real content, and the F16 class is what they exclude *)
+Example C10_obeys_example :
+  body_new true [72; 105; 10; 120] = ([72; 105; 13; 10; 120], SevenBit) /\
+  mem 0 [72; 105; 13; 10; 120] = false /\ no_bare [72; 105; 13; 10; 120] = true /\
+  body_new false [72; 105; 10; 120] = ([72; 105; 10; 120], SevenBit) /\ no_bare [72; 105; 10; 120] = false.
+Proof. vm_compute. repeat split. Qed.
+
 Example C10_example_qp : qp_encode [99; 97; 102; 195; 169; 32; 13; 10; 61; 10] =
   [99; 97; 102; 61; 67; 51; 61; 65; 57; 61; 50; 48; 13; 10; 61; 51; 68; 61; 48; 65].
 Proof. vm_compute. reflexivity. Qed.
@@ -50,3 +78,6 @@ Print Assumptions C10_crlf.
 Print Assumptions C10_crlf_idempotent.
 Print Assumptions C10_qp_roundtrip.
 Print Assumptions C10_b64_roundtrip.
+Print Assumptions C10_obeys_declared.
+Print Assumptions C10_base64_lines.
+Print Assumptions C10_qp_lines.
